@@ -24,6 +24,7 @@ class Harness:
         self.flags = kv.get("flags", "")
         self.known = kv.get("known", "")
         self.heavy = kv.get("heavy", "no") == "yes"
+        self.native = kv.get("native", "yes") == "yes"   # no: harness relies on kani::stub, cannot be re-run natively
         self.file = None      # target source file (module owner)
         self.module = None    # name of the injected module that holds it
 
